@@ -455,6 +455,18 @@ func c14Scenarios(tier string) []Scenario {
 	for _, v6 := range []bool{false, true} {
 		for _, seq := range seqs {
 			n := len(seq)
+			if n >= 4 {
+				// longest sequences: five representative kinds only
+				skip := false
+				for _, k := range seq {
+					if k == SdEmpty || k == SdNoIP {
+						skip = true
+					}
+				}
+				if skip {
+					continue
+				}
+			}
 			bound := 2
 			if n >= 3 {
 				bound = 1
